@@ -63,6 +63,12 @@ type ChildResult struct {
 
 // Run is the context of one check invocation (parent or child).
 type Run struct {
+	// SigMap, when set, rewrites (or, returning "", drops) the signature of every violation
+	// reported while it is set: a check that borrows the workload and judge of another
+	// property keeps only the clauses that concern its own property.
+	SigMap func(string) string
+	// DropInconclusive: inconclusive verdicts of a borrowed judge are not this check's.
+	DropInconclusive bool
 	Property string
 	Tier     string
 	Seed     int64
@@ -197,6 +203,9 @@ func (r *Run) Assume(s string) {
 }
 
 func (r *Run) Inconclusive(s string) {
+	if r.DropInconclusive {
+		return
+	}
 	r.mu.Lock()
 	if len(r.inconcl) < 50 {
 		r.inconcl = append(r.inconcl, s)
@@ -215,6 +224,11 @@ func (r *Run) LogCase(desc string) {
 
 // Violation records a refutation. sig is the narrow, stable signature.
 func (r *Run) Violation(sig, what string, witness interface{}) {
+	if r.SigMap != nil {
+		if sig = r.SigMap(sig); sig == "" {
+			return
+		}
+	}
 	r.mu.Lock()
 	defer r.mu.Unlock()
 	if v, ok := r.violations[sig]; ok {
